@@ -340,17 +340,11 @@ func PathOf(v ssa.Value) string {
 		return x.Op.String() + PathOf(x.X)
 	case *ssa.FieldAddr:
 		f := FieldOfAddr(x)
-		n := "?"
-		if f != nil {
-			n = f.Name()
-		}
+		n := FieldName(f)
 		return PathOf(x.X) + "." + n
 	case *ssa.Field:
 		f := FieldOfVal(x)
-		n := "?"
-		if f != nil {
-			n = f.Name()
-		}
+		n := FieldName(f)
 		return PathOf(x.X) + "." + n
 	case *ssa.Alloc:
 		if x.Comment != "" {
@@ -545,7 +539,7 @@ func NamedOfShort(t types.Type) string {
 		t = p.Elem()
 	}
 	if n, ok := t.(*types.Named); ok {
-		return pre + n.Obj().Name()
+		return pre + TypeName(n)
 	}
 	return pre + t.String()
 }
